@@ -421,7 +421,6 @@ package core
 // subsections "first count" number their entries first, first+1, ...; every entry is stored under its own number
 //@ func (*XRefParser) parseTraditionalXRef results (table, err)
 //@   property C04, C02
-//@   flags nosafety
 //@   callsite Set(n, e) requires n == firstObjNum + i && e == entry
 //@   loop 0:
 //@     invariant !isnil(table)
